@@ -343,6 +343,8 @@ def finish(cases, have_driver, errors, strict=True):
     else:
         model = [None] * len(cases)
     for c, m in zip(cases, model):
+        if c.get('model_line') == 'no-model':
+            m = None                     # a scenario the model has no words for (an exception out of the transport): oracles only
         c['model'] = m if '-O' not in (c.get('pyflags') or []) else None
         c['model_shadow'] = m
     # cross-check of the harness's reference implementations against the Lean specification
